@@ -73,3 +73,11 @@ CHECKS["C02"] = dict(
     design_ref="DESIGN.md section 3 C02",
     note="Forced fusion uses a large allowed_mem; max_total_source_arrays=None is outside the supported parameter domain.",
 )
+
+CHECKS["C13"] = dict(
+    level="exploration",
+    technique="property-based testing with a recording Callback: generated programs and store sinks x local executors x optimize x compute_arrays_in_parallel x batch_size; recorded event sequence checked against the finalized plan's task counts and an ordering grammar",
+    text="Every case computes a generated program (multi-output ops, rechunks, region stores, fused plans, array creation) with a Callback that records all events. The check requires one compute_start first / compute_end last, exactly one operation_start before and one operation_end after all task_end events of each operation, task_end.num_tasks summing to primitive_op.num_tasks == len(list(pipeline.mappable)), FinalizedPlan.num_tasks equal to the sum, and the event op set equal to the plan's op set - on single-threaded, threads (parallel on/off, batch sizes), processes (sampled) and the schedule-owning executor.",
+    design_ref="DESIGN.md section 3 C13",
+    note="use_backups stays off here (C08). Event order is the order in which callbacks were invoked in the driver process.",
+)
